@@ -156,6 +156,12 @@ func buildSelect(sel *ast.SelectStmt, label *ast.Ident) ast.Stmt {
 			List: []ast.Expr{&ast.BasicLit{Kind: token.INT, Value: strconv.Itoa(idx)}}, Body: body})
 		idx++
 	}
+	if !hasDefault {
+		// keeps the statement terminating when every arm is (a select at the end of a
+		// function whose arms all return); Select never returns an index without an arm
+		sw.Body.List = append(sw.Body.List, &ast.CaseClause{List: nil, Body: []ast.Stmt{
+			&ast.ExprStmt{X: call(ast.NewIdent("panic"), &ast.BasicLit{Kind: token.STRING, Value: `"zzvs: Select returned an arm that does not exist"`})}}})
+	}
 	args := []ast.Expr{ast.NewIdent(strconv.FormatBool(hasDefault))}
 	args = append(args, caseIdents...)
 	sw.Tag = call(vsSel("Select"), args...)
